@@ -12,6 +12,12 @@ in which each register holds its `*_init` value (the value given to a_init is th
 every initial content of the stack cells from a small alphabet: same sequence of blocks (destinations), same exit,
 same sequence of (address, size, value) memory writes, same final value of every register.
 The thorough tier adds the assembled x86_32 functions of mc/x86funcs.py (real lifter, regs_init of the x86 arch).
+
+The analysis visits its work list (a set of LocKeys) in key order, so the numbering of the locations decides the
+visiting order: lattice graphs are also built with other LocKey creation orders, and two larger templates ("a late,
+weaker edge": a block first reached with a known register / stack cell, later through an unconditional edge on which
+that knowledge was lost upstream, the value being used two blocks later) are run under every permutation of the
+creation order (5 blocks) or under the traversal numberings + rotations (8 blocks; every permutation in thorough).
 """
 import itertools
 
@@ -23,7 +29,8 @@ LEVEL = "exploration"
 ENGINE = "enum"
 RULE = ("complete product: CFG shapes (<= N blocks, every block reachable, at least one exit block) x bodies (<= L assignments "
         "per block from an ordered alphabet) x branch conditions, each rewritten graph run next to the original from every "
-        "state of the register x initial-memory lattice; plus (thorough) a fixed list of assembled x86_32 functions; "
+        "state of the register x initial-memory lattice; lattice graphs under several LocKey creation orders, two larger "
+        "'late weaker edge' templates under every / many creation orders; plus (thorough) a fixed list of assembled x86_32 functions; "
         "distinct = distinct graph; non-trivial = the propagation rewrote at least one expression and the original reaches "
         "an exit within the fuel bound from some state")
 LEVEL_TEXT = ("Bounded-exhaustive enumeration of small IR graphs through the real constant propagation (symbolic execution of "
@@ -173,15 +180,61 @@ def guarded(fn, cpu_seconds=None):
         signal.signal(signal.SIGVTALRM, old)
 
 
-def check_graph(n, shape_idx, body_idx, cond_idx, alphabet, conds):
+def build_ordered(shape, body_names, cond_names, order=None):
+    """Same graph as irgen.build, but the LocKeys are created in the given order (order[k] = block created k-th):
+    the analysis' work list is a set of LocKeys popped in key order, so the numbering decides the visiting order."""
+    from miasm.core.locationdb import LocationDB
+    from miasm.ir.ir import IRBlock, AssignBlock
+    import miasm.expression.expression as m
+    n = len(shape)
+    order = list(order) if order is not None else list(range(n))
+    loc_db = LocationDB()
+    lifter, A = irgen.make_lifter(loc_db)
+    locs = [None] * n
+    for i in order:
+        locs[i] = loc_db.add_location("lbl%d" % i, i * 0x10)
+    ircfg = lifter.new_ircfg()
+    for i in range(n):
+        blks = [AssignBlock(dict(d)) for _, d in irgen.assign_alphabet(A, list(body_names[i]))]
+        succ = shape[i]
+        if len(succ) == 0:
+            dst = A.END
+        elif len(succ) == 1:
+            dst = m.ExprLoc(locs[succ[0]], 32)
+        else:
+            cond = irgen.cond_alphabet(A, [cond_names[i]])[0][1]
+            dst = m.ExprCond(cond, m.ExprLoc(locs[succ[0]], 32), m.ExprLoc(locs[succ[1]], 32))
+        blks.append(AssignBlock({A.IRDst: dst}))
+        ircfg.add_irblock(IRBlock(loc_db, locs[i], blks))
+    out = irgen.Built()
+    out.ircfg, out.lifter, out.arch, out.loc_db, out.locs, out.head = ircfg, lifter, A, loc_db, locs, locs[0]
+    return out
+
+
+def describe_named(shape, body_names, cond_names, order):
+    lines = []
+    for i, succ in enumerate(shape):
+        body = "; ".join(body_names[i])
+        t = "END" if not succ else ("goto %d" % succ[0] if len(succ) == 1 else "%s ? %d : %d" % (cond_names[i], succ[0], succ[1]))
+        lines.append("B%d: %s -> %s" % (i, body, t))
+    txt = " | ".join(lines)
+    if order is not None and list(order) != list(range(len(shape))):
+        txt += " [LocKeys created in block order %s]" % ",".join(map(str, order))
+    return txt
+
+
+def shape_loop_free(shape):
+    return irgen.shape_is_loop_free(shape)
+
+
+def check_named(shape, body_names, cond_names, order, case, tag=""):
     from miasm.analysis.cst_propag import propagate_cst_expr
-    shape = irgen.shapes(n)[shape_idx]
-    case = {"kind": "irgen", "n": n, "shape": shape_idx, "bodies": body_idx, "conds": cond_idx, "alphabet": alphabet, "condnames": conds}
-    desc = irgen.describe(shape, body_idx, cond_idx, alphabet, conds)
-    kind = ("loop" if not irgen.shape_is_loop_free(shape) else "dag") + ":" + features(body_idx, alphabet)
+    desc = describe_named(shape, body_names, cond_names, order)
+    used = sorted(set(x for b in body_names for x in b))
+    kind = ("loop" if not shape_loop_free(shape) else "dag") + ":" + features([tuple(range(len(used)))], used) + tag
     info = {"states": 0, "skipped_states": 0, "compared": 0, "runs_with_writes": 0, "changed": 0, "raised": 0}
-    g0 = irgen.build(shape, body_idx, cond_idx, alphabet, conds)
-    g = irgen.build(shape, body_idx, cond_idx, alphabet, conds)
+    g0 = build_ordered(shape, body_names, cond_names, order)
+    g = build_ordered(shape, body_names, cond_names, order)
     before = graph_text(g.ircfg)
     try:
         guarded(lambda: propagate_cst_expr(g.lifter, g.ircfg, g.head, g.lifter.arch.regs.regs_init))
@@ -197,6 +250,85 @@ def check_graph(n, shape_idx, body_idx, cond_idx, alphabet, conds):
     vs = differential(desc, case, kind, irinterp.Interp(g0.loc_db), irinterp.Interp(g.loc_db), g0.ircfg, g0.head, g.ircfg, g.head,
                       states(g0), list(A.regs), FUEL, info, irdst=A.IRDst)
     return vs, info
+
+
+def check_graph(n, shape_idx, body_idx, cond_idx, alphabet, conds, order=None):
+    shape = irgen.shapes(n)[shape_idx]
+    case = {"kind": "irgen", "n": n, "shape": shape_idx, "bodies": body_idx, "conds": cond_idx, "alphabet": alphabet, "condnames": conds,
+            "order": list(order) if order is not None else None}
+    body_names = [[alphabet[k] for k in b] for b in body_idx]
+    cond_names = [conds[cond_idx[i]] if len(shape[i]) == 2 else None for i in range(n)]
+    return check_named(shape, body_names, cond_names, order, case)
+
+
+# ------------------------------------------------------------------ templates: a late, weaker edge
+# Shapes larger than the lattice in which a block X is first reached along a path that gives a register / a stack
+# cell a known value, and later through an edge on which that knowledge was lost upstream; the blocks after X use
+# the value.  Every listed order of LocKey creation is run (the work list is visited in key order).
+#   (name, shape, per block list of alternative bodies, per block condition)
+TEMPLATES = [
+    ("cell-written-on-one-branch-used-two-blocks-later",
+     ((1, 2), (3,), (3,), (4,), ()),
+     [[()], [("@[sp+8]=1",), ("b=5",)], [(), ("b=2",)], [()], [("b=@[sp+8]", "r=b"), ("r=b",)]],
+     ["a", None, None, None, None]),
+    # both edges into X (block 5) are unconditional jumps: from the pass-through block 7 (b = 5 known) and from the common
+    # tail 4 of the nested if/else (b = 1 or 2: not known); block 6 uses b
+    ("value-direct-or-through-nested-if-else-with-common-tail-used-later",
+     ((7, 1), (2, 3), (4,), (4,), (5,), (6,), (), (5,)),
+     [[("b=5",), ()], [()], [("b=1",)], [("b=2",), ("b=1",)], [()], [()], [("r=b",), ("r=b+1",)], [()]],
+     ["a", "a==b", None, None, None, None, None, None]),
+]
+
+
+def traversal_orders(shape):
+    """Numberings a front end could produce: breadth-first and depth-first from the head, first or second successor
+    first, and the reverse of each."""
+    out = []
+    for flip in (False, True):
+        succ = [tuple(reversed(s)) if flip else tuple(s) for s in shape]
+        bfs, seen = [0], {0}
+        i = 0
+        while i < len(bfs):
+            for x in succ[bfs[i]]:
+                if x not in seen:
+                    seen.add(x)
+                    bfs.append(x)
+            i += 1
+        dfs, seen = [], set()
+
+        def walk(u):
+            seen.add(u)
+            dfs.append(u)
+            for x in succ[u]:
+                if x not in seen:
+                    walk(x)
+        walk(0)
+        for o in (bfs, dfs):
+            for oo in (o, o[::-1]):
+                if len(oo) == len(shape) and oo not in out:
+                    out.append(list(oo))
+    return out
+
+
+def orders_for(shape, full):
+    """Every permutation (full), else the traversal numberings plus the rotations of the identity and of the reversed numbering."""
+    n = len(shape)
+    if full:
+        return [list(p) for p in itertools.permutations(range(n))]
+    out = traversal_orders(shape)
+    for base in (list(range(n)), list(range(n - 1, -1, -1))):
+        for k in range(n):
+            o = base[k:] + base[:k]
+            if o not in out:
+                out.append(o)
+    return out
+
+
+def check_template(ti, body_choice, order):
+    name, shape, alts, cond_names = TEMPLATES[ti]
+    body_names = [list(alts[i][body_choice[i]]) for i in range(len(shape))]
+    case = {"kind": "template", "template": ti, "name": name, "choice": list(body_choice), "order": list(order)}
+    return check_named(shape, body_names, cond_names, order, case, tag=":late-weaker-edge")
 
 
 def check_x86(idx):
@@ -244,7 +376,28 @@ def _shard(args):
             sigs[x["sig"]] = sigs.get(x["sig"], 0) + 1
         from mc import x86funcs
         return 1, 1 if info["changed"] and info["compared"] else 0, v, "x86:" + x86funcs.FUNCS[args[1]][0], sigs, info
-    _, n, maxlen, alphabet, conds, lo, hi = args
+    if args[0] == "template":
+        _, ti, orders, all_choices = args
+        name, shape, alts, cond_names = TEMPLATES[ti]
+        cnt = nt = 0
+        vs, sigs, tot, sample = [], {}, {}, None
+        for order in orders:
+            for choice in itertools.product(*[range(len(a) if all_choices else 1) for a in alts]):
+                cnt += 1
+                v, info = check_template(ti, choice, order)
+                for k, x in info.items():
+                    tot[k] = tot.get(k, 0) + x
+                if info["changed"] and info["compared"]:
+                    nt += 1
+                    if sample is None:
+                        sample = "template %s, order %s" % (name, order)
+                for x in v:
+                    sigs[x["sig"]] = sigs.get(x["sig"], 0) + 1
+                    if sigs[x["sig"]] <= 2:
+                        vs.append(x)
+        tot["template_graphs"] = cnt
+        return cnt, nt, vs, sample, sigs, tot
+    _, n, maxlen, alphabet, conds, lo, hi, order = args
     shapes = irgen.shapes(n)
     bl = irgen.bodies(alphabet, maxlen)
     cnt = nt = 0
@@ -262,7 +415,7 @@ def _shard(args):
         for body_idx in itertools.product(bl, repeat=n):
             for cond_idx in itertools.product(*[range(k) for k in ncond]):
                 cnt += 1
-                v, info = check_graph(n, si, body_idx, cond_idx, alphabet, conds)
+                v, info = check_graph(n, si, body_idx, cond_idx, alphabet, conds, order)
                 for k, x in info.items():
                     tot[k] = tot.get(k, 0) + x
                 if info["changed"] and info["compared"]:
@@ -293,18 +446,24 @@ def _shard(args):
     return cnt, nt, vs, sample, sigs, tot
 
 
+REV2, REV3 = [1, 0], [2, 1, 0]
 PLAN_Q = [
-    (1, 2, ALPHA_FULL, CONDS),
-    (2, 1, ALPHA_FULL, CONDS),
-    (3, 1, ALPHA_TINY, ["a"]),
+    (1, 2, ALPHA_FULL, CONDS, None),
+    (2, 1, ALPHA_FULL, CONDS, None),
+    (2, 1, ALPHA_FULL, ["a"], REV2),
+    (3, 1, ALPHA_TINY, ["a"], None),
 ]
 PLAN_T = [
-    (1, 3, ALPHA_FULL, CONDS),
-    (2, 2, ALPHA_MEM, CONDS),
-    (2, 1, ALPHA_FULL, CONDS),
-    (3, 1, ALPHA_SMALL + ["@[sp+4]=a"], ["a"]),
-    (3, 1, ALPHA_TINY, CONDS),
-    (4, 1, ["@[sp+4]=b", "a=@[sp+4]"], ["a"]),
+    (1, 3, ALPHA_FULL, CONDS, None),
+    (2, 2, ALPHA_MEM, CONDS, None),
+    (2, 1, ALPHA_FULL, CONDS, None),
+    (2, 1, ALPHA_FULL, CONDS, REV2),
+    (3, 1, ALPHA_SMALL + ["@[sp+4]=a"], ["a"], None),
+    (3, 1, ALPHA_TINY, CONDS, None),
+    (3, 1, ALPHA_TINY, ["a"], REV3),
+    (3, 1, ALPHA_TINY, ["a"], [1, 2, 0]),
+    (3, 1, ALPHA_TINY, ["a"], [2, 0, 1]),
+    (4, 1, ["@[sp+4]=b", "a=@[sp+4]"], ["a"], None),
 ]
 
 
@@ -320,11 +479,24 @@ def run(ctx):
     plan = PLAN_Q if ctx.quick else PLAN_T
     _preimport()
     shards = []
-    for n, maxlen, alphabet, conds in plan:
+    for n, maxlen, alphabet, conds, order in plan:
         ns = len(irgen.shapes(n))
         for i in range(ns):
             if irgen.shape_has_exit(irgen.shapes(n)[i]):
-                shards.append(("irgen", n, maxlen, alphabet, conds, i, i + 1))
+                shards.append(("irgen", n, maxlen, alphabet, conds, i, i + 1, order))
+    template_orders = {}
+    for ti, (name, shape, alts, cond_names) in enumerate(TEMPLATES):
+        # <= 5 blocks: every permutation x every body alternative.  Larger: traversal numberings + rotations x every body
+        # alternative, and (thorough) every permutation x the first body alternative of each block
+        small = len(shape) <= 5
+        jobs = [(orders_for(shape, full=small), True)]
+        if not small and not ctx.quick:
+            jobs.append((orders_for(shape, full=True), False))
+        template_orders[name] = [len(o) for o, _ in jobs]
+        for orders, all_choices in jobs:
+            step = max(1, len(orders) // 48)
+            for lo in range(0, len(orders), step):
+                shards.append(("template", ti, orders[lo:lo + step], all_choices))
     nx86 = 0
     if not ctx.quick:
         from mc import x86funcs
@@ -354,7 +526,10 @@ def run(ctx):
         "violating_graphs_by_signature": sigcount,
         "samples": [r[3] for r in res if r[3]][:6],
         "exhaustive": True,
-        "bounds": {"plan(blocks,max_assignments,alphabet,conditions)": [[n, l, a, c] for n, l, a, c in plan],
+        "template_graphs(late weaker edge x LocKey creation orders)": tot.get("template_graphs", 0),
+        "bounds": {"plan(blocks,max_assignments,alphabet,conditions,lockey_creation_order)": [[n, l, a, c, o] for n, l, a, c, o in plan],
+                   "templates(name,shape,body_alternatives,conditions)": [[t[0], t[1], t[2], t[3]] for t in TEMPLATES],
+                   "template_lockey_orders": template_orders,
                    "fuel_blocks": FUEL,
                    "state_lattice": "a,b in {0,1,2,0xFFFFFFFF} (when read), sp = 0x1000, cells at sp+4 and sp+8 in {address pattern, 0, 1} (when memory is read); every *_init identifier = its register"},
     }
@@ -363,5 +538,7 @@ def run(ctx):
 def replay(case):
     if case.get("kind") == "x86":
         return check_x86(case["index"])[0]
+    if case.get("kind") == "template":
+        return check_template(case["template"], tuple(case["choice"]), list(case["order"]))[0]
     return check_graph(case["n"], case["shape"], tuple(tuple(b) for b in case["bodies"]), tuple(case["conds"]), list(case["alphabet"]),
-                       list(case["condnames"]))[0]
+                       list(case["condnames"]), case.get("order"))[0]
